@@ -97,7 +97,9 @@ RandomAccessIterator3 parallel_multiway_merge_base(
 
     size_t num_seqs = seqs_ne.size();
 
-    if (total_size == 0 || num_seqs == 0)
+    // nothing to merge: no elements available or none requested (a rank of
+    // zero elements cannot be split among threads)
+    if (total_size == 0 || num_seqs == 0 || size == 0)
         return target;
 
     if (static_cast<DiffType>(num_threads) > total_size)
